@@ -483,3 +483,5 @@ def check(run, prog):
     rule_nesting_state(run, prog, fn)
     from .c14_macro_removal import rule_macro_removal
     rule_macro_removal(run, prog)            # R-14.6
+    from .c14_macro_removal import rule_macro_lookup
+    rule_macro_lookup(run, prog)             # R-14.7
